@@ -21,6 +21,9 @@ ASSUMPTIONS = [
     "needs range(makespan), which is concretised by bounded solver enumeration",
     "frame order: two symbolic frame numbers 1 <= i < j <= 100000 go through the real _save_frame and _load_images; formatted numbers are "
     "tokens whose lexicographic order is encoded digit by digit over linear integer arithmetic; int(<formatted number>) is the number",
+    "reuse mode: two animations (gif, then gif or video) of two arbitrary complete histories of one instance rendered into the same "
+    "frames_dir with remove_frames=False; the recording file system keeps per file the figure written last; the frames loaded by the "
+    "second call must show the second history (a frames_dir holding frames of a LONGER earlier history is outside the claim)",
     "row of a machine: all bars of one machine share one y-range, y-ranges of different machines are disjoint and increase with the "
     "machine id, and the y tick of machine m lies inside its y-range",
 ]
@@ -29,6 +32,10 @@ BUDGET = {"quick": 420, "thorough": 2400}
 
 
 def bounds(tier):
+    return _bounds(tier) + "; reuse: two histories into one kept frames_dir, shapes <=3 ops M<=2 up to renaming, all pairs of histories"
+
+
+def _bounds(tier):
     if tier == "quick":
         return ("bars: ordered shapes <=3 jobs <=4 ops, all assignments M<=2 and flexible M<=2 on <=3 ops, every history and every prefix "
                 "(partial schedules), xlim in {given=7, None}; frames (a): shapes <=3 ops and (2,2) M<=2, every history, history-driven and "
@@ -48,6 +55,8 @@ def subspaces(tier):
     out += C.structure_subspaces(D.shapes(2, 2), 2, True, only_flexible=True, mode="frames", source="history")
     for ep in (1, 2):
         out += C.structure_subspaces(D.shapes(2, 3) if ep == 2 and tier == "quick" else s3, 2, False, mode="creator", episodes=ep)
+    for sec in ("gif", "video"):
+        out += C.structure_subspaces(D.shapes(3, 3), 2, False, canonical=True, mode="reuse", second=sec)
     out.append(dict(mode="order", shape=[1], machines=[[0]], listing="ij", limit=100000))
     out.append(dict(mode="order", shape=[1], machines=[[0]], listing="ji", limit=100000))
     if tier == "thorough":
@@ -57,6 +66,8 @@ def subspaces(tier):
 
 
 def cost(sp):
+    if sp["mode"] == "reuse":
+        return C.cost(dict(sp, filter="none")) ** 2
     return C.cost(dict(sp, filter="none")) * (3 if sp.get("xlim") is None and sp["mode"] == "bars" else 1)
 
 
@@ -221,7 +232,7 @@ def os_stub():
 
     def listdir(d):
         if REC.listing is None:
-            names = [real.path.basename(p) for p, _ in REC.saved]
+            names = list(dict.fromkeys(real.path.basename(p) for p, _ in REC.saved))   # a file written twice exists once
         else:
             names = REC.listing
         return [SymStr(n) if TOKEN_RE.search(n) else n for n in names]
@@ -288,6 +299,8 @@ def harness(eng, sp):
             frames_harness(eng, sp)
         elif sp["mode"] == "creator":
             creator_harness(eng, sp)
+        elif sp["mode"] == "reuse":
+            reuse_harness(eng, sp)
         else:
             order_harness(eng, sp)
     finally:
@@ -462,6 +475,72 @@ def frames_harness(eng, sp):
         nums = re.findall(r"(\d+)", str(name).rsplit("/", 1)[-1])
         if not nums or int(nums[-1]) != k:
             eng.fail("C20/frames/frame-file-not-numbered-by-position", f"{name} for frame {k}")
+    eng.prove_all(items)
+    eng.observe("mk", spec.makespan())
+
+
+def reuse_harness(eng, sp):
+    """Two animations of DIFFERENT histories of one instance rendered one after the other into the same frames directory,
+    the first one keeping its frames (remove_frames=False): the recording file system holds, per file, what was written
+    last; the images handed to the encoder by the second call must show the second history."""
+    from job_shop_lib.dispatching import Dispatcher, HistoryObserver
+    from job_shop_lib.visualization import create_gantt_chart_gif, create_gantt_chart_video
+
+    inst, desc = D.build_instance(eng, sp["shape"], sp["machines"], dmin=0)
+    specs, hists = [], []
+    for _ in range(2):
+        spec = Spec(desc)
+        disp = Dispatcher(inst)
+        hist = HistoryObserver(disp)
+        for k in range(desc.n_ops):
+            op, m = D.choose_dispatch(eng, desc, spec)
+            disp.dispatch(D.op_by_id(inst, op), m)
+            spec.apply(op, m)
+            eng.reachable("transition")
+        specs.append(spec)
+        hists.append(list(hist.history))
+
+    def plot_function(schedule, makespan=None, available_operations=None, current_time=None):
+        fig = FigStub()
+        fig.shot = (D.lib_lists(schedule), makespan, current_time)
+        return fig
+
+    REC.reset()
+    second = create_gantt_chart_gif if sp["second"] == "gif" else create_gantt_chart_video
+    try:
+        create_gantt_chart_gif(inst, "a.gif", None, plot_function, remove_frames=False, frames_dir="frames_dir", schedule_history=hists[0])
+        n_loaded = len(REC.loaded)
+        second(inst, "b.gif" if sp["second"] == "gif" else "b.mp4", None, plot_function, remove_frames=False, frames_dir="frames_dir",
+               schedule_history=hists[1])
+    except E.Unsupported:
+        raise
+    except Exception as ex:
+        eng.fail(f"C20/reuse/exception-{type(ex).__name__}", f"{ex}"[:200])
+        return
+    eng.reachable("state")
+    n = desc.n_ops
+    loaded = [str(x) for x in REC.loaded[n_loaded:]]
+    if len(loaded) != n or len(REC.mimsave) != 2 or len(REC.mimsave[-1][1]) != n:
+        eng.fail("C20/reuse/number-of-frames-differs-from-history-length", f"{len(loaded)} frames loaded for {n} dispatches")
+        return
+    content = {}
+    for path, fig in REC.saved:
+        content[str(path)] = fig       # what the file holds now: the figure written last
+    spec, prefix, items = specs[1], Spec(desc), []
+    for k, (op, m) in enumerate(spec.history, start=1):
+        prefix.apply(op, m)
+        fig = content.get(loaded[k - 1])
+        if fig is None or not hasattr(fig, "shot"):
+            eng.fail("C20/reuse/frame-file-was-never-written", loaded[k - 1])
+            return
+        lists, mk, now = fig.shot
+        got = {o: (st, mm) for l in lists for (o, st, mm) in l}
+        if sorted(got) != prefix.scheduled_ops() or any(got[o][1] != prefix.machine_of[o] for o in got):
+            eng.fail("C20/reuse/frame-k-does-not-show-the-first-k-operations-of-this-history",
+                     f"frame {k}: {sorted(got)} vs {prefix.scheduled_ops()} (history {spec.history}, earlier animation {specs[0].history})")
+            return
+        items += [(veq(got[o][0], prefix.start[o]), "C20/reuse/frame-k-shows-wrong-start-times") for o in got]
+        items.append((veq(mk, spec.makespan()), "C20/reuse/time-axis-is-not-the-final-makespan"))
     eng.prove_all(items)
     eng.observe("mk", spec.makespan())
 
